@@ -263,9 +263,11 @@ func (s *scope) reportLoop(interval time.Duration) {
 }
 
 func (s *scope) reportLoopRun() {
+	verifYield(61)
 	if s.closed.Load() {
 		return
 	}
+	verifYield(62)
 
 	s.reportRegistry()
 }
@@ -286,6 +288,7 @@ func (s *scope) Counter(name string) Counter {
 		return c
 	}
 
+	verifYield(51)
 	s.cm.Lock()
 	defer s.cm.Unlock()
 
@@ -322,6 +325,7 @@ func (s *scope) Gauge(name string) Gauge {
 		return g
 	}
 
+	verifYield(52)
 	s.gm.Lock()
 	defer s.gm.Unlock()
 
@@ -357,6 +361,7 @@ func (s *scope) Timer(name string) Timer {
 		return t
 	}
 
+	verifYield(53)
 	s.tm.Lock()
 	defer s.tm.Unlock()
 
@@ -402,6 +407,7 @@ func (s *scope) Histogram(name string, b Buckets) Histogram {
 		htype = durationHistogramType
 	}
 
+	verifYield(54)
 	s.hm.Lock()
 	defer s.hm.Unlock()
 
@@ -528,7 +534,9 @@ func (s *scope) Close() error {
 	close(s.done)
 
 	if s.root {
+		verifYield(63)
 		s.reportRegistry()
+		verifYield(64)
 		if closer, ok := s.baseReporter.(io.Closer); ok {
 			return closer.Close()
 		}
